@@ -151,4 +151,23 @@ def readsOf : List FCLabel → List Inp
   | .stmt (.readRet i) :: ls => i :: readsOf ls
   | _ :: ls => readsOf ls
 
+/-! ### `Close()` inside the fair run
+
+`Close()` is issued by another goroutine after the `n`-th transition of the fair run (any `n`; if the
+run is over earlier, at its end): the scheduler runs with policy `pol` for at most `n` transitions,
+`closeSig` is taken, and the scheduler continues with policy `pol2` on what is left of the script. -/
+
+/-- The state after `Close()` (the statement `closeSig` is always enabled and does just this). -/
+def closeOf (s : FCSys) : FCSys := { s with f := { s.f with closeReq := true } }
+
+def fdriveClose (T : Table) (cap : Nat) (pol pol2 : Policy) (n fuel : Nat) (s : FCSys) (sc : List Inp) : FCSys :=
+  fdrive T cap pol2 fuel (closeOf (fdrive T cap pol n s sc)) (frest T cap pol n s sc)
+
+def ftraceClose (T : Table) (cap : Nat) (pol pol2 : Policy) (n fuel : Nat) (s : FCSys) (sc : List Inp) : List FCLabel :=
+  ftrace T cap pol n s sc ++
+    .stmt .closeSig :: ftrace T cap pol2 fuel (closeOf (fdrive T cap pol n s sc)) (frest T cap pol n s sc)
+
+def frestClose (T : Table) (cap : Nat) (pol pol2 : Policy) (n fuel : Nat) (s : FCSys) (sc : List Inp) : List Inp :=
+  frest T cap pol2 fuel (closeOf (fdrive T cap pol n s sc)) (frest T cap pol n s sc)
+
 end VaxisModel.Model.ParserRunFineFair
